@@ -2,6 +2,7 @@
 # usage: lib/run_harmless.sh   -- behaviour-preserving rewrites of /repo (harmless/*.diff) must not raise an alarm:
 # apply each to /repo, run the quick checks of the properties anchored in the files it touches, undo it.
 cd /verif
+export VERIF_EVIDENCE_DIR=/verif/.scratch/evidence_changed_tree   # evidence/ only ever holds runs on the unchanged tree
 declare -A props=(
   [rwmutex_correct]="C16 C17 C18"
   [emulator_defer_unlock]="C16 C17 C18"
